@@ -64,6 +64,41 @@ pub struct Emulator<H: Host> {
     sound_enabled: bool,
 }
 
+/// Verification hooks, compiled only with `--cfg rustzx_verif`
+#[cfg(rustzx_verif)]
+impl<H: Host> Emulator<H> {
+    pub fn verif_cpu(&mut self) -> &mut Z80 {
+        &mut self.cpu
+    }
+
+    pub fn verif_frame_clocks(&self) -> usize {
+        self.controller.frame_clocks
+    }
+
+    pub fn verif_set_frame_clocks(&mut self, clocks: usize) {
+        self.controller.verif_set_frame_clocks(clocks);
+    }
+
+    pub fn verif_total_frames(&self) -> u64 {
+        self.controller.verif_total_frames
+    }
+
+    pub fn verif_ram_bank(&self, bank: u8) -> &[u8] {
+        self.controller.memory.ram_page_data(bank)
+    }
+
+    pub fn verif_paging(&self) -> (u8, bool, u8, [(bool, u8); 4]) {
+        self.controller.verif_paging()
+    }
+
+    pub fn verif_tape_state(&self) -> Option<crate::zx::tape::VerifTapState> {
+        match &self.controller.tape {
+            crate::zx::tape::ZXTape::Tap(tap) => Some(tap.verif_state()),
+            crate::zx::tape::ZXTape::Empty(_) => None,
+        }
+    }
+}
+
 impl<H: Host> Emulator<H> {
     /// Constructs new emulator
     /// # Arguments
